@@ -32,7 +32,7 @@ def cases(tier, seed):
     rng = np.random.default_rng([seed, 404])
     n = 450 if tier == "quick" else 45000
     for i in range(n):
-        d = gen.random_mesh(rng, 60 if tier == "quick" else 250)
+        d = gen.random_mesh(rng, 60 if tier == "quick" else 250, families=gen.ALL_FAMILIES)
         yield {"mesh": d, "node": NODE_PROV[int(rng.integers(0, 5))], "face": CEN_PROV[int(rng.integers(0, 4))],
                "edge": CEN_PROV[int(rng.integers(0, 4))], "lon360": bool(rng.random() < 0.5),
                "order": int(rng.integers(0, 720)), "cseed": int(rng.integers(0, 10**6)), "cradius": bool(rng.random() < 0.3), "rev": bool(rng.random() < 0.5)}
@@ -177,14 +177,17 @@ def run_case(ctx, case):
         rings = ux.grid_face_rings(g)
         want = np.array([ref.unit(nodeP[r].mean(axis=0)) for r in rings])
         got = ref.lonlat_to_xyz(*final["face_ll"])
-        err = float(np.max(ref.angle(want, got)))
-        ctx.check("derived_centre_is_corner_mean", err < 1e-9, {"kind": "face", "prov": prov["node"]}, {"max_err_rad": err, "case": case})
+        # centres inside the library's pole-snapping band (|z| > 1 - 1e-8, i.e. within 1.42e-4 rad of a pole) are reported at the pole
+        band = np.where(np.abs(want[:, 2]) > 1 - 1.01e-8, 1.5e-4, 1e-9)
+        err = float(np.max(ref.angle(want, got) - band))
+        ctx.check("derived_centre_is_corner_mean", err < 0, {"kind": "face", "prov": prov["node"]}, {"max_err_over_tolerance_rad": err, "case": case})
     if equal_radius and "edge_ll" not in supplied and "edge_xyz" not in supplied:
         en = np.asarray(g.edge_node_connectivity.values)
         want = ref.unit(nodeP[en[:, 0]] + nodeP[en[:, 1]])
         got = ref.lonlat_to_xyz(*final["edge_ll"])
-        err = float(np.max(ref.angle(want, got)))
-        ctx.check("derived_centre_is_corner_mean", err < 1e-9, {"kind": "edge", "prov": prov["node"]}, {"max_err_rad": err, "case": case})
+        band = np.where(np.abs(want[:, 2]) > 1 - 1.01e-8, 1.5e-4, 1e-9)
+        err = float(np.max(ref.angle(want, got) - band))
+        ctx.check("derived_centre_is_corner_mean", err < 0, {"kind": "edge", "prov": prov["node"]}, {"max_err_over_tolerance_rad": err, "case": case})
     # supplied centres are carried (same positions)
     # normalisation changes lengths only
     before = {k: np.stack(final[k + "_xyz"], axis=-1) for k in ("node", "edge", "face")}
